@@ -23,6 +23,22 @@ PROPS = {
             "the specification of a quoted span (`q_scan`) is hand-written from the property text: backslash protects the next char, a doubled ` ' \" continues the token, [ ] has no doubling",
         ],
     },
+    "C04": {
+        "kind": "verus",
+        "units": [{"name": "ident"}],
+        "search": True,
+        "technique": "Verus contracts: Iden::prepare / quoted / to_string (trait defaults) and every raw quoting site (any write! mentioning .left(), discovered on each run and wrapped as a function) emit one token that the quoted-identifier lexer decodes to exactly the name",
+        "trusted_base": TB_COMMON + [TB_FMT, TB_STR,
+            "R-strfn: std::str::from_utf8(&[b]).unwrap() is the one-character string of an ASCII byte and panics for b >= 0x80; str::repeat(2) is s+s; str::replace with a one-character pattern replaces that character; char::from(u8) is the Latin-1 code point (validated natively each run)",
+            "R-arm: a raw quoting site is the `write!` statement wrapped as a function of its free variables (name: &str); the surrounding function is not verified",
+            "oracle (hand-written): quoted-identifier lexer of MySQL (backtick) and PostgreSQL / SQLite (double quote): a doubled closing quote is one quote, a single one ends the token",
+            "abstract implementor VIden: `unquoted` of an arbitrary Iden implementor writes its name (each implementor defines its own); Alias::unquoted is the real extracted body"],
+        "assumptions": [
+            "all other identifier positions (table / schema / column / alias / CTE / window names) reach the writer only through Iden::prepare with self.quote(): a syntactic call-graph fact, not proved",
+            "implementors that override Iden::prepare / quoted (the derive macro's fast path, C19) are outside this check",
+            "custom keyword / function / type names (Keyword::Custom, Func::Custom, ColumnType::Custom, IndexType::Custom) are written unquoted by design and are not identifier positions of the property",
+        ],
+    },
     "C17": {
         "kind": "verus",
         "units": [{"name": "escape"}],
@@ -52,6 +68,7 @@ PROPS = {
 }
 
 LEVEL_TEXT = {
+    "C04": "Unbounded proof for all identifier strings: the extracted Iden::prepare satisfies `quoted_ident(output ++ rest) == (name, |output|)` for every rest not starting with the quote, for both quote characters; the backends' QUOTE constants are verified to be those characters; every raw quoting site found in src/backend on this run satisfies the same contract.",
     "C17": "Unbounded proof for all strings: escape_string's postcondition is `unescape_spec(result) == input` and unescape_string's is `result == unescape_spec(input)` on the extracted bodies of all three backends (default chain of 8 replacements proved equal to a single-pass map; SQLite quote doubling vs leftmost non-overlapping '' replacement); the property is the verified composition `roundtrip`.",
     "C03": "Unbounded proof for all strings / chars / byte strings: the extracted literal writers (write_string_quoted default + Postgres override, write_bytes default + Postgres override, value_to_string_common, prepare_constant, MySQL column_comment) satisfy `lex_B(output ++ rest) == (value, |output|)` for every rest not starting with a quote, under the three engines' lexers.",
     "C16": "Unbounded proof: every function of src/token.rs is extracted from the working tree and verified by Verus against contracts taken from the property (termination by decreases, progress, non-empty tokens, concatenation == input, quoted spans == quoted_end); the property is a lemma (tokenize_all + lemma_punct_outside_quotes) over next()'s contract. All strings, all lengths.",
@@ -59,7 +76,7 @@ LEVEL_TEXT = {
 
 _NOT_YET = "not built yet in this session (planned, see DESIGN.md section 4); no check is registered so nothing is claimed"
 NOT_APPLICABLE = {
-    "C01": _NOT_YET, "C02": _NOT_YET, "C04": _NOT_YET, "C05": _NOT_YET, "C06": _NOT_YET,
+    "C01": _NOT_YET, "C02": _NOT_YET, "C05": _NOT_YET, "C06": _NOT_YET,
     "C07": "defined by executing statements on a real SQLite engine and comparing rows/table contents; no contract on sea-query's functions can express an engine's evaluation semantics and neither Verus nor Kani can take SQLite's C code as a callee (DESIGN.md section 6)",
     "C08": _NOT_YET,
     "C09": "equality of query RESULTS of three renderings on executing engines and equivalence of emulations (IS NULL ordering, IFNULL/COALESCE, GREATEST/MAX): engine semantics, outside any contract on this code (DESIGN.md section 6)",
